@@ -483,7 +483,8 @@ def dec_trees(out):
         for _ in range(3):
             occ, e, s, mt = t.int(), t.int(), t.int(), t.int()
             slots.append((e, s, mt) if occ else None)
-        res.append(dict(reflects=refl, coords=coords, sys=sys_, metric=metric, recon=recon, slots=slots))
+        count = t.int()
+        res.append(dict(reflects=refl, coords=coords, sys=sys_, metric=metric, recon=recon, slots=slots, count=count))
     return res
 
 
@@ -493,8 +494,10 @@ def history(ctx, m, reqs):
     rng = ctx.rng
     g = meshes.to_grid(m, ux)
     hist_enc = [list(r) for r in reqs]
-    rep = dec_trees(ctx.driver.ask("C11.cache", 0, len(reqs), *[enc_req(r) for r in reqs]))
-    asis = dec_trees(ctx.driver.ask("C11.cache", 1, len(reqs), *[enc_req(r) for r in reqs]))
+    sizes = (int(g.n_node), int(g.n_face), int(g.n_edge))
+    zs = " ".join(map(str, sizes))
+    rep = dec_trees(ctx.driver.ask("C11.cache", zs, 0, len(reqs), *[enc_req(r) for r in reqs]))
+    asis = dec_trees(ctx.driver.ask("C11.cache", zs, 1, len(reqs), *[enc_req(r) for r in reqs]))
     ctx.case(("history", m.key(), tuple(reqs)), nontrivial=len(reqs) >= 2,
              sample=dict(history=hist_enc) if len(reqs) == 2 else None)
     ctx.hit(f"history-len={len(reqs)}")
@@ -516,11 +519,17 @@ def history(ctx, m, reqs):
         # behaviour of the wrapper under the REQUESTED convention (k-nearest + radius query at EVERY step, Lean-judged)
         built = (oc, os_, om)
         beh = "skipped"
+        n_req = sizes[ELEM[elem]]
+        cnt = n_req
         if not diff:
             beh = behaviour(ctx, g, tree, r, inp)
             if beh == "fail":
                 built = ((ELEM[elem] + 1) % 3, os_, om)  # behaves like some other tree
-        refl = ctx.driver.ask("C11.reflects", enc_req(r), oc, os_, om, *built)
+            # the k guard after EVERY request: accepted iff 1 <= k <= n of the kind requested in THIS call
+            if not guard_step(ctx, g, tree, r, inp, zs, sizes, reqs[: step + 1]):
+                c = getattr(tree, "_n_elements", None)
+                cnt = int(c) if isinstance(c, (int, np.integer)) and int(c) != n_req else n_req + 1
+        refl = ctx.driver.ask("C11.reflects", zs, enc_req(r), oc, os_, om, *built, cnt)
         ctx.hit("handback:" + ("reflects" if refl == "1" else "stale"))
         if refl != "1":
             if diff:
@@ -529,7 +538,7 @@ def history(ctx, m, reqs):
                          f"get_{kind}_tree hands back a tree whose {' and '.join(diff)} differ from the request "
                          f"(cached tree reused{'; matches the as-is cache model' if matches_asis else ''})",
                          inp, obs, dict(repaired=rep[step], as_is=asis[step]), ["tree_reflects_request"])
-            # behaviour failure already recorded by `behaviour`
+            # behaviour / guard failure already recorded by `behaviour` / `guard_step`
             return
         # correspondence with the repaired state machine: slot occupancy (when observable)
         slots = [getattr(tree, a, "n/a") for a in ("_tree_from_nodes", "_tree_from_face_centers", "_tree_from_edge_centers")]
@@ -539,6 +548,72 @@ def history(ctx, m, reqs):
             occ = [s is not None for s in slots]
             if occ != [s is not None for s in rep[step]["slots"]]:
                 ctx.mismatch("C11/cache-slots", inp, dict(occupied=occ), rep[step])
+
+
+def k_class(k, n):
+    return "k<1" if k < 1 else "k=1" if k == 1 else "k=n" if k == n else "1<k<n" if k < n else "k>n"
+
+
+def guard_step(ctx, g, tree, r, inp, zs, sizes, hist):
+    """`query` on the wrapper just handed back, for k below, inside and above 1..n of the REQUESTED
+    kind (incl. k = n, a random k, and the sizes of the other element kinds ± 1, which is where a
+    stale element count shows).  The model's verdict (`handback_guard`, evaluated by the Lean driver
+    on the history) must agree with accepted / refused; accepted admissible answers for k = n and the
+    random k are judged against brute force.  Returns False when the guard misbehaves."""
+    kind, elem, sys_, metric, recon = r
+    rng = ctx.rng
+    E = elem_coords(g, elem, sys_)
+    n = len(E)
+    others = [s for s in sizes if s != n]
+    ks = [0, 1, n, n + 1, rng.randint(1, n)]
+    for o in others:
+        ks += [o, o + 1]
+    ks = sorted(set(k for k in ks if k >= 0))
+    ok = True
+    judged = {n, ks[rng.randrange(len(ks))]} | {k for k in ks if 1 <= k <= n and k > min(sizes)}
+    for k in ks:
+        in_rad = rng.random() < 0.3
+        lo, la = rng.uniform(-180, 180), math.degrees(math.asin(rng.uniform(-1, 1)))
+        q = user_query(sys_, metric, in_rad, lo, la)
+        want = ctx.driver.ask("C11.guard", zs, 0, len(hist), *[enc_req(x) for x in hist], k) == "1"
+        cls = k_class(k, n)
+        qinp = dict(inp, op="query", k=k, in_radians=in_rad, queries=[q], form="single-1d")
+        try:
+            d, ind = call_query(tree, q, k, in_rad, True)
+            raised = None
+        except Exception as e:
+            raised = f"{type(e).__name__}: {e}"
+        ctx.hit(f"handback-guard:{cls}:{'accepted' if raised is None else 'refused'}")
+        if want and raised is not None:
+            ctx.fail(f"C11/guard/{kind}/after-kind-switch/{cls}-refused",
+                     f"after this request history query(k={k}) on the handed-back {kind} tree is refused ({raised[:120]}) "
+                     f"although 1 <= k <= n = {n} of the requested kind '{elem}' (sizes node/face/edge = {sizes})",
+                     qinp, dict(raised=raised, n_elements=getattr(tree, "_n_elements", "n/a")), dict(accepts=True, n=n),
+                     ["handback_guard", "model_query_guard"])
+            ok = False
+        elif not want and raised is None:
+            ctx.fail(f"C11/guard/{kind}/after-kind-switch/{cls}-accepted",
+                     f"after this request history query(k={k}) on the handed-back {kind} tree is answered although k is "
+                     f"outside 1..n = {n} of the requested kind '{elem}' (sizes node/face/edge = {sizes})",
+                     qinp, dict(answered=True, n_elements=getattr(tree, "_n_elements", "n/a")), dict(accepts=False, n=n),
+                     ["handback_guard", "model_query_guard"])
+            ok = False
+        elif want and k in judged:
+            n0 = len(ctx.failures)
+            try:
+                d, ind = canon_knn(d, ind, 1, k)
+                res = judge_knn_row(ctx, (kind, sys_, metric, in_rad), E, q, k, ind[0], d[0], qinp)
+            except Exception as e:
+                ctx.fail(f"C11/cache/{kind}/handback-answers-wrongly/shape", f"query(k={k}) answer has the wrong shape: {e}", qinp)
+                res = "fail"
+            ctx.hit(f"handback-knn[{cls}]:{res}")
+            for f in ctx.failures[n0:]:
+                if not f["signature"].startswith("C11/cache/"):
+                    f["signature"] = f"C11/cache/{kind}/handback-answers-wrongly/" + f["signature"].split("/")[1]
+                    f["clauses"] = list(f["clauses"]) + ["tree_reflects_request"]
+            if res == "fail":
+                ok = False
+    return ok
 
 
 def behaviour(ctx, g, tree, r, inp):
